@@ -1,26 +1,44 @@
 use crate::util::{Ctx, Report};
 
 pub mod c06; pub mod c19;
+pub mod c01;
 pub mod c02;
+pub mod c03;
+pub mod c04;
+pub mod c05;
 pub mod c07;
 pub mod c08;
 pub mod c09;
 pub mod c10;
+pub mod c11;
 pub mod c12;
+pub mod c13;
+pub mod c14;
+pub mod c15;
 pub mod c16; pub mod c20;
 pub mod c17;
+pub mod c18;
 
 pub fn run(prop: &str, ctx: &Ctx, report: &mut Report) {
     match prop {
         "C06" => c06::run(ctx, report), "C19" => c19::run(ctx, report),
+        "C01" => c01::run(ctx, report),
         "C02" => c02::run(ctx, report),
+        "C03" => c03::run(ctx, report),
+        "C04" => c04::run(ctx, report),
+        "C05" => c05::run(ctx, report),
         "C07" => c07::run(ctx, report),
         "C08" => c08::run(ctx, report),
         "C09" => c09::run(ctx, report),
         "C10" => c10::run(ctx, report),
+        "C11" => c11::run(ctx, report),
         "C12" => c12::run(ctx, report),
+        "C13" => c13::run(ctx, report),
+        "C14" => c14::run(ctx, report),
+        "C15" => c15::run(ctx, report),
         "C16" => c16::run(ctx, report), "C20" => c20::run(ctx, report),
         "C17" => c17::run(ctx, report),
+        "C18" => c18::run(ctx, report),
         _ => {
             eprintln!("unknown property {}", prop);
             std::process::exit(2);
